@@ -537,8 +537,45 @@ def _cmp_counts(c, prop, left, right):
     else:
         evs = [e for e in c.I.events if e[0] == 'cmp']
         ok = len(evs) >= 1 and all(e[2] == left and e[3] == right for e in evs)
-        c.rec(prop, 'mixed partial_cmp compares converted counts, receiver from self', ok,
-              '; '.join(f"{e[2]!r} cmp {e[3]!r}" for e in evs) + f" expected {left!r} cmp {right!r}")
+        why = '; '.join(f"{e[2]!r} cmp {e[3]!r}" for e in evs) + f" expected {left!r} cmp {right!r}"
+        if not ok and not evs:
+            # no Ord::cmp at all (an explicit `<` / `>` chain): decided semantically - every exit returns Some(o) with o the one
+            # ordering that the exit state forces for left - right
+            forced = _forced_orderings(c, left.sub(right))
+            if forced is not None:
+                ok, why = forced
+        c.rec(prop, 'mixed partial_cmp compares converted counts, receiver from self', ok, why)
+
+
+def _forced_orderings(c, diff):
+    seen = set()
+    exits = getattr(c, 'raw_exits', c.exits)
+    if not exits:
+        return None
+    for (st, ret) in exits:
+        if not isinstance(ret, VAdt):
+            return None
+        names = {v['idx']: v['name'] for v in c.facts.types.get(ret.ty, {}).get('variants', [])}
+        if set(names.values()) != {'None', 'Some'} or len(ret.variants) != 1:
+            return None
+        k = next(iter(ret.variants))
+        if names[k] != 'Some':
+            return False, 'an exit returns None (incomparable)'
+        o = ret.variants[k][0]
+        if not isinstance(o, VAdt) or len(o.variants) != 1:
+            return None
+        on = {v['idx']: v['name'] for v in c.facts.types.get(o.ty, {}).get('variants', [])}
+        got = on.get(next(iter(o.variants)))
+        lo, hi = st.num.rng(diff)
+        want = 'Less' if hi < 0 else 'Greater' if lo > 0 else 'Equal' if lo == hi == 0 else None
+        if want is None:
+            return None
+        if got != want:
+            return False, f"an exit returns {got} where left - right lies in [{lo}, {hi}]"
+        seen.add(got)
+    if seen != {'Less', 'Equal', 'Greater'}:
+        return None
+    return True, ''
 
 
 @contract(r'^<time::Time as std::cmp::Partial(Eq|Ord)<interval::IntervalDT>>::(eq|partial_cmp)$')
